@@ -251,6 +251,21 @@ func (c *chessCtx) replay(o *Obs, c03 bool) (p *position.Position, perr string) 
 	rootFen := c.roots[o.Root-1].Fen()
 	var stack []snap
 	c.phaseExceeded = false
+	// only the snapshot that the final undo is compared with is needed: find the step that pushes it
+	needPush := -1
+	if c03 && len(o.Path) > 0 && o.Path[len(o.Path)-1] < 0 && o.Path[len(o.Path)-1] != -2 {
+		var idx []int
+		for i, op := range o.Path {
+			if op >= 0 || op == -2 {
+				idx = append(idx, i)
+			} else if len(idx) > 0 {
+				if i == len(o.Path)-1 {
+					needPush = idx[len(idx)-1]
+				}
+				idx = idx[:len(idx)-1]
+			}
+		}
+	}
 	perr = guard(func() {
 		p, _ = position.NewPositionFen(rootFen)
 		if p == nil {
@@ -264,12 +279,20 @@ func (c *chessCtx) replay(o *Obs, c03 bool) (p *position.Position, perr string) 
 			switch {
 			case op >= 0:
 				if c03 {
-					stack = append(stack, takeSnap(p, true))
+					if i == needPush {
+						stack = append(stack, takeSnap(p, true))
+					} else {
+						stack = append(stack, snap{})
+					}
 				}
 				p.DoMove(engineMove(op, o.Kinds[i][0]))
 			case op == -2:
 				if c03 {
-					stack = append(stack, takeSnap(p, true))
+					if i == needPush {
+						stack = append(stack, takeSnap(p, true))
+					} else {
+						stack = append(stack, snap{})
+					}
 				}
 				p.DoNullMove()
 			case op == -1 || op == -3:
